@@ -67,6 +67,27 @@ structure ResendOut (env : Env) (sr : Msg → Bool) (c c' : Conn) (b e : Int) (e
     ∃ rp, prepareReplay p.2 = .ok rp ∧
       Rows.find p.1 c'.journal.out = some (buildFrame c.sess env.stamp rp p.1)
 
+/-- the last three statements of `_process_resend`: counter restored, state ACTIVE unless awaiting -/
+theorem resend_finish (cur : Int) (c3 : Conn) (hcur : 0 < cur)
+    (hlt : Rows.AllLt cur c3.journal.out) (hl : st_DISCONNECTED_BROKEN_CONN < c3.state) :
+    ∃ c' es2, (do
+        setSeqNum (some cur) none
+        let c2 ← M.get
+        if c2.state != st_RESENDREQ_AWAITING then stateSet st_ACTIVE else pure ()) c3
+          = ⟨.ok (), c', es2⟩ ∧
+      newWrites es2 = [] ∧ c'.sess.nextOut = cur ∧ c'.sess.sender = c3.sess.sender ∧
+      c'.sess.target = c3.sess.target ∧ c'.journal.out = c3.journal.out ∧
+      c'.journal.outSeq = cur - 1 ∧ c'.sock = c3.sock ∧ st_DISCONNECTED_BROKEN_CONN < c'.state := by
+  rw [run_bind_of_ok (setSeqNum_out_eq cur c3 hcur), Out.pre_nil, run_bind_get]
+  have hout : (rewind c3 cur).journal.out = c3.journal.out := Rows.below_of_allLt _ _ hlt
+  by_cases h12 : ((rewind c3 cur).state != st_RESENDREQ_AWAITING) = true
+  · rw [if_pos h12]
+    unfold stateSet
+    rw [run_bind_modify, run_emit]
+    exact ⟨_, _, rfl, rfl, rfl, rfl, rfl, hout, rfl, rfl, (by decide : st_DISCONNECTED_BROKEN_CONN < st_ACTIVE)⟩
+  · rw [if_neg h12, run_pure]
+    exact ⟨_, _, rfl, rfl, rfl, rfl, rfl, hout, rfl, rfl, hl⟩
+
 theorem resendCore_run (env : Env) (sr : Msg → Bool) (c : Conn) (b e : Int) (hI : OutInv c)
     (hst : st_LOGON_INITIAL_SENT < c.state) (hstamp : isLatin1 env.stamp = true)
     (hb : 1 ≤ b) (hbc : b < c.sess.nextOut) :
@@ -76,21 +97,22 @@ theorem resendCore_run (env : Env) (sr : Msg → Bool) (c : Conn) (b e : Int) (h
     Nat.lt_trans (by decide : st_DISCONNECTED_BROKEN_CONN < st_LOGON_INITIAL_SENT) hst
   have hsock := hI.sock hlive
   -- 1. rewind
-  let c1 := rewind c b
-  have hc1 : ResendCtx env c1 := ⟨hst, hsock, hI.latin.1, hI.latin.2, hstamp⟩
-  have hout1 : c1.journal.out = Rows.below b c.journal.out := rfl
+  have hc1 : ResendCtx env (rewind c b) := ⟨hst, hsock, hI.latin.1, hI.latin.2, hstamp⟩
+  have hout1 : (rewind c b).journal.out = Rows.below b c.journal.out := rfl
   -- 2. loop
   have hrs : ∀ p ∈ Rows.range b e c.journal.out, RowOk p.2 p.1 ∧ b ≤ p.1 ∧ p.1 < c.sess.nextOut := by
     intro p hp
     obtain ⟨hm, h1, _⟩ := Rows.mem_range.mp hp
     exact ⟨(hI.rows p hm).1, h1, (hI.rows p hm).2⟩
   obtain ⟨J', o', gfb', gfe', es1, heq, hout⟩ :=
-    resendLoop_spec env sr c.sess.nextOut (Rows.range b e c.journal.out) c1 b b hc1
+    resendLoop_spec env sr c.sess.nextOut (Rows.range b e c.journal.out) (rewind c b) b b hc1
       (Rows.sorted_below b _ hI.sorted) (Rows.allLt_below b _)
       (fun p hp => (hI.rows p (Rows.mem_below.mp hp).1).1)
       (Rows.sorted_range b e _ hI.sorted) hrs (by omega) (by omega)
-  let c2 := setOut c1 J' o'
-  have hc2 : ResendCtx env c2 := hc1.setOut _ _
+  have hc2 : ResendCtx env (setOut (rewind c b) J' o') := hc1.setOut _ _
+  have hbelowJ : ∀ k, k < b → Rows.find k J' = Rows.find k c.journal.out := by
+    intro k hk
+    rw [hout.below k hk, hout1, Rows.find_below _ _ _ hI.sorted, if_pos hk]
   -- 3./4. assertion, trailing gap fill
   have hge : decide (gfe' ≤ c.sess.nextOut) = true := by simpa using hout.gfeCur
   have hcur : (0 : Int) < c.sess.nextOut := by omega
@@ -99,76 +121,64 @@ theorem resendCore_run (env : Env) (sr : Msg → Bool) (c : Conn) (b e : Int) (h
   dsimp only
   rw [hge, run_bind_of_ok (run_assert_true _), Out.pre_nil]
   by_cases hg : gfb' < c.sess.nextOut
-  · rw [if_pos hg, run_bind_of_ok (sendMsg_gapFill env c2 gfb' c.sess.nextOut hc2 hout.allLt)]
-    let gf := buildFrame c2.sess env.stamp (gapFillMsg gfb' c.sess.nextOut) gfb'
-    let c3 := setOut c2 (J' ++ [(gfb', gf)]) gfb'
-    show Out.pre es1 (Out.pre [Effect.write gf] (((setSeqNum (some c.sess.nextOut) none) >>= _) c3)) = _ ∧ _
-    rw [run_bind_of_ok (setSeqNum_out_eq c.sess.nextOut c3 hcur), Out.pre_nil, run_bind_get]
-    have hJ3 : Rows.AllLt c.sess.nextOut (J' ++ [(gfb', gf)]) := by
+  · rw [if_pos hg,
+      run_bind_of_ok (sendMsg_gapFill env _ gfb' c.sess.nextOut hc2 hout.allLt)]
+    have hJ3 : Rows.AllLt c.sess.nextOut (J' ++
+        [(gfb', buildFrame c.sess env.stamp (gapFillMsg gfb' c.sess.nextOut) gfb')]) := by
       intro p hp
       rcases List.mem_append.mp hp with hp | hp
       · have := hout.allLt p hp; omega
       · simp only [List.mem_singleton] at hp; subst hp; exact hg
-    have hfind : ∀ k, Rows.find k (Rows.below c.sess.nextOut (J' ++ [(gfb', gf)])) =
-        if k = gfb' then some gf else Rows.find k J' := by
-      intro k
-      rw [Rows.below_of_allLt _ _ hJ3]; exact Rows.find_append_last _ _ _ _ hout.allLt
-    have hgfmt : gf.mtype = mSequenceReset := rfl
-    have main : ∀ c' : Conn, c'.sess = (rewind c3 c.sess.nextOut).sess →
-        c'.journal = (rewind c3 c.sess.nextOut).journal → c'.sock = c.sock →
-        st_DISCONNECTED_BROKEN_CONN < c'.state →
-        ResendOut env sr c c' b e (es1 ++ [Effect.write gf]) := by
-      intro c' hs hj hsk hlv
-      have hjo : c'.journal.out = Rows.below c.sess.nextOut (J' ++ [(gfb', gf)]) := by rw [hj]; rfl
-      refine ⟨by rw [hs]; rfl, by rw [hs]; rfl, by rw [hs]; rfl, by rw [hj]; rfl, hsk, hlv, ?_,
-        ?_, ?_, ?_, ?_, ?_⟩
-      · rw [newWrites_append, hout.noNew]
-        have : isNew gf = false := by rw [buildFrame_isNew]; rfl
-        simp [newWrites, this]
-      · rw [hjo, Rows.below_of_allLt _ _ hJ3]
-        exact Rows.sorted_append_last _ _ _ hout.sorted hout.allLt
+    obtain ⟨c', es2, hfin, hn2, f1, f2, f3, f4, f5, f6, f7⟩ :=
+      resend_finish c.sess.nextOut (setOut (setOut (rewind c b) J' o')
+        (J' ++ [(gfb', buildFrame c.sess env.stamp (gapFillMsg gfb' c.sess.nextOut) gfb')]) gfb')
+        hcur hJ3 hlive
+    refine ⟨c', es1 ++ ([Effect.write (buildFrame c.sess env.stamp (gapFillMsg gfb' c.sess.nextOut) gfb')] ++ es2), ?_, ?_⟩
+    · exact congrArg (fun o => Out.pre es1 (Out.pre
+        [Effect.write (buildFrame c.sess env.stamp (gapFillMsg gfb' c.sess.nextOut) gfb')] o)) hfin
+    · have hfind : ∀ k, Rows.find k c'.journal.out =
+          if k = gfb' then some (buildFrame c.sess env.stamp (gapFillMsg gfb' c.sess.nextOut) gfb')
+          else Rows.find k J' := by
+        intro k; rw [f4]; exact Rows.find_append_last _ _ _ _ hout.allLt
+      refine ⟨f1, f2, f3, f5, f6, f7, ?_, ?_, ?_, ?_, ?_, ?_⟩
+      · have : isNew (buildFrame c.sess env.stamp (gapFillMsg gfb' c.sess.nextOut) gfb') = false := by
+          rw [buildFrame_isNew]; rfl
+        simp [newWrites_append, hout.noNew, hn2, newWrites, this]
+      · rw [f4]; exact Rows.sorted_append_last _ _ _ hout.sorted hout.allLt
       · intro p hp
-        rw [hjo, Rows.below_of_allLt _ _ hJ3] at hp
+        rw [f4] at hp
         rcases List.mem_append.mp hp with hp | hp
         · exact ⟨hout.rowOk p hp, by have := hout.allLt p hp; omega⟩
         · simp only [List.mem_singleton] at hp; subst hp
           exact ⟨rowOk_gapFill hc2 _ _, hg⟩
       · intro k hk
-        rw [hjo, hfind, if_neg (by have := hout.le; omega), hout.below k hk, hout1,
-          Rows.find_below _ _ _ hI.sorted, if_pos hk]
+        rw [hfind, if_neg (by have := hout.le; omega)]; exact hbelowJ k hk
       · intro k g' hk hf
-        rw [hjo, hfind] at hf
+        rw [hfind] at hf
         split at hf
-        · cases hf; exact Or.inl hgfmt
+        · cases hf; exact Or.inl rfl
         · exact hout.above k g' hk hf
       · intro p hp hpr
         obtain ⟨rp, h1, h2⟩ := hout.copies p hp hpr
         refine ⟨rp, h1, ?_⟩
-        rw [hjo, hfind]
         have : p.1 < gfb' := by
           have := hout.allLt _ (Rows.find_mem h2); simpa using this
-        rw [if_neg (by omega)]; exact h2
-    by_cases h12 : ((rewind c3 c.sess.nextOut).state != st_RESENDREQ_AWAITING) = true
-    · rw [if_pos h12]
-      unfold stateSet
-      rw [run_bind_modify, run_emit]
-      refine ⟨_, _, rfl, ?_⟩
-      have := main { rewind c3 c.sess.nextOut with state := st_ACTIVE,
-        wasActive := (rewind c3 c.sess.nextOut).wasActive || st_ACTIVE == st_ACTIVE } rfl rfl rfl
-        (by decide)
-      refine { this with noNew := ?_ }
-      have h0 := this.noNew
-      simp only [List.append_assoc, newWrites_append] at h0 ⊢
-      simp only [newWrites, List.append_nil] at h0 ⊢
-      exact h0
-    · rw [if_neg h12, run_pure]
-      refine ⟨_, _, rfl, ?_⟩
-      have := main (rewind c3 c.sess.nextOut) rfl rfl rfl hlive
-      refine { this with noNew := ?_ }
-      have h0 := this.noNew
-      simp only [List.append_assoc, newWrites_append] at h0 ⊢
-      simp only [newWrites, List.append_nil] at h0 ⊢
-      exact h0
-  · sorry
+        rw [hfind, if_neg (by omega)]; exact h2
+  · rw [if_neg hg]
+    have hJ3 : Rows.AllLt c.sess.nextOut J' := fun p hp => by
+      have := hout.allLt p hp; have := hout.leCur; omega
+    obtain ⟨c', es2, hfin, hn2, f1, f2, f3, f4, f5, f6, f7⟩ :=
+      resend_finish c.sess.nextOut (setOut (rewind c b) J' o') hcur hJ3 hlive
+    refine ⟨c', es1 ++ es2, ?_, ?_⟩
+    · exact congrArg (fun o => Out.pre es1 o) hfin
+    · refine ⟨f1, f2, f3, f5, f6, f7, ?_, ?_, ?_, ?_, ?_, ?_⟩
+      · simp [newWrites_append, hout.noNew, hn2]
+      · rw [f4]; exact hout.sorted
+      · intro p hp
+        rw [f4] at hp
+        exact ⟨hout.rowOk p hp, hJ3 p hp⟩
+      · intro k hk; rw [f4]; exact hbelowJ k hk
+      · intro k g' hk hf; rw [f4] at hf; exact hout.above k g' hk hf
+      · intro p hp hpr; rw [f4]; exact hout.copies p hp hpr
 
 end AsyncFix.Session
